@@ -34,6 +34,9 @@ type Program struct {
 	funcDecls map[*types.Func]*FuncInfo
 	varFuncs  map[*types.Var]*FuncInfo
 	AllFuncs  []*FuncInfo // every function/method declared in non-test files of module packages
+
+	fieldAlias  map[string]*types.Var // re-identified renamed anchor fields, by "pkg.Type.field" (anchors.go)
+	AnchorNotes []string              // what was re-identified, for the evidence
 }
 
 // FuncInfo ties a declared function to its syntax.
@@ -46,10 +49,16 @@ type FuncInfo struct {
 	// package-level `var f = func(...) {...}` (e.g. ircserver.authOper)
 	Var *types.Var
 	Lit *ast.FuncLit
+
+	// Canon is the name the rules know this function by when it was re-identified after a rename (anchors.go).
+	Canon string
 }
 
 // Name returns a stable, line-free name: "ircserver.(*IRCServer).cmdTopic".
 func (f *FuncInfo) Name() string {
+	if f.Canon != "" {
+		return f.Canon
+	}
 	if f.Obj == nil && f.Var != nil {
 		return ShortPkg(f.Var.Pkg().Path()) + "." + f.Var.Name()
 	}
@@ -90,6 +99,9 @@ func (f *FuncInfo) Info() *types.Info { return f.Pkg.TypesInfo }
 func FuncName(fn *types.Func) string {
 	if fn == nil {
 		return "<nil>"
+	}
+	if c, ok := canonFunc[fn]; ok {
+		return c
 	}
 	pkg := ""
 	if fn.Pkg() != nil {
@@ -215,6 +227,7 @@ func Load(dir string, overlay map[string][]byte) (*Program, error) {
 			}
 		}
 	}
+	p.resolveAnchors()
 	sort.Slice(p.AllFuncs, func(i, j int) bool { return p.AllFuncs[i].Name() < p.AllFuncs[j].Name() })
 	return p, nil
 }
@@ -278,6 +291,13 @@ func (p *Program) Named(short, name string) *types.Named {
 
 // Field looks up a struct field object of a named struct type.
 func (p *Program) Field(short, typ, field string) *types.Var {
+	if v := p.fieldByName(short, typ, field); v != nil {
+		return v
+	}
+	return p.fieldAlias[short+"."+typ+"."+field]
+}
+
+func (p *Program) fieldByName(short, typ, field string) *types.Var {
 	n := p.Named(short, typ)
 	if n == nil {
 		return nil
